@@ -8,6 +8,8 @@ package main
 
 import (
 	"fmt"
+
+	"cuelang.org/go/cue"
 	"os"
 	"path/filepath"
 	"sort"
@@ -31,6 +33,59 @@ func runC20(c *Cfg) {
 			}
 		}
 		c20CLIChild(strings.TrimPrefix(c.Replay, "cli:"), args)
+		return
+	}
+	if strings.HasPrefix(c.Replay, "flat:") {
+		var n int
+		fmt.Sscan(strings.TrimPrefix(c.Replay, "flat:"), &n)
+		r := NewRng(c.Seed).Sub()
+		fc := c20flatCtxShared()
+		for i := 0; i < n; i++ {
+			p := c20GenFlat(r.Sub())
+			l, err := c20Load(p)
+			if err != nil || l.val.Err() != nil {
+				continue
+			}
+			before, ok := c20flatCollect(p)
+			if !ok {
+				fmt.Println("OUTSIDE", p.String())
+				continue
+			}
+			for path, cs := range before {
+				enc, _ := fc.encode(cs)
+				rv := l.val.LookupPath(cue.ParsePath(strings.TrimPrefix(path, ".")))
+				d, _ := rv.Default()
+				fmt.Printf("%s %s %v impl=%d\n", path, enc, cs, fc.maskOfValue(d))
+			}
+			fmt.Println(p.String())
+		}
+		return
+	}
+	if strings.HasPrefix(c.Replay, "gen:") {
+		// dump generated packages that trim refuses (generator tuning)
+		var n int
+		fmt.Sscan(strings.TrimPrefix(c.Replay, "gen:"), &n)
+		r := NewRng(c.Seed).Sub()
+		for i := 0; i < n; i++ {
+			sub := r.Sub()
+			var p c20Pkg
+			if i%2 == 0 {
+				p, _ = c20GenPackage(sub, false)
+			} else {
+				p = c20GenFlat(sub)
+			}
+			if c20HasEmbeddedDisjunction(p) {
+				continue
+			}
+			l, err := c20Load(p)
+			if err != nil {
+				fmt.Printf("LOADERR %v\n%s\n", err, p.String())
+				continue
+			}
+			if e := l.val.Err(); e != nil {
+				fmt.Printf("VALERR %v\n%s\n", e, p.String())
+			}
+		}
 		return
 	}
 	if strings.HasPrefix(c.Replay, "worker:") {
